@@ -170,6 +170,19 @@ func (p *Path) stubByName(name string, fn *ssa.Function, args []Value) (Value, b
 		return BytesOf{s: p.bufGet(p.bufPtr(args[0]))}, true
 	case "(*bytes.Buffer).Len":
 		return mkLen(p.bufGet(p.bufPtr(args[0]))), true
+	case "(*bytes.Buffer).WriteTo":
+		c := p.bufPtr(args[0])
+		content := p.bufGet(c)
+		r := p.writeTo(args[1], content)
+		tp := r.(Tuple)
+		if e, ok := tp[1].(Iface); ok && e.t == nil {
+			p.bufs[c] = mkStr("")
+		}
+		return Tuple{tp[0], tp[1]}, true
+	case "strconv.FormatBool":
+		return mkIte(args[0].(*Term), mkStr("true"), mkStr("false")), true
+	case "io.WriteString":
+		return p.writeTo(args[0], args[1].(*Term)), true
 	case "(*bytes.Buffer).Reset":
 		p.bufs[p.bufPtr(args[0])] = mkStr("")
 		return nil, true
@@ -666,7 +679,11 @@ func ufAxioms(u *Term) []*Term {
 	case "gohex":
 		return []*Term{mkInRe(u, reHex)}
 	case "fmtf64":
-		return []*Term{mkImplies(mkUF("f64finite", SBool, u.Args[0]), mkInRe(u, reFloatSharp))}
+		// fmt's %#v on a float64 is strconv's shortest 'g' formatting (library fact, refined natively like every UF)
+		return []*Term{mkImplies(mkUF("f64finite", SBool, u.Args[0]), mkInRe(u, reFloatSharp)),
+			mkEq(u, mkUF("ff:103:-1:64", SStr, u.Args[0]))}
+	case "ff:103:-1:64":
+		return []*Term{mkEq(u, mkUF("fmtf64", SStr, u.Args[0]))}
 	case "fmtf32":
 		return []*Term{mkImplies(mkUF("f32finite", SBool, u.Args[0]), mkInRe(u, reFloatSharp))}
 	case "fmtc128", "fmtc64":
